@@ -130,7 +130,9 @@ func (w *World) enabled(kind string) bool {
 		return false
 	case OpSetPred:
 		return len(s.KeysIn(KOutstanding)) > 0 && len(s.LiveNodes()) > 0 && !w.Opts.NoPredicates
-	case OpHostile, OpRemovePart, OpCleanExp:
+	case OpHostile:
+		return w.Opts.Hostile
+	case OpRemovePart, OpCleanExp:
 		return false
 	}
 	return true
@@ -213,6 +215,8 @@ func (w *World) genKind(t *rapid.T, kind string, p *Profile) Op {
 		op.Node = pick(t, "node", cands)
 	case OpAddApp:
 		op = w.genAddApp(t, p)
+	case OpHostile:
+		op = GenHostile(t, w)
 	case OpRemoveApp:
 		op.App = pick(t, "app", s.AcceptedApps())
 	case OpAddAsk:
